@@ -1226,8 +1226,8 @@ def coq_family(ctx, prefix, header, fn, items, what, chunk=40):
     for n, i in enumerate(range(0, len(items), chunk)):
         ch = items[i:i + chunk]
         chunks.append(ch)
-        files.append(('%s_%03d' % (prefix, n), header + 'Definition cases := [\n' + ';\n'.join(t[1] for t in ch) +
-                      '].\nEval vm_compute in badidx %s 0 cases.\n' % fn))
+        files.append(('%s_%03d' % (prefix, n), header + 'Eval vm_compute in badidx %s 0 [\n' % fn + ';\n'.join(t[1] for t in ch) +
+                      '].\n'))   # the list is elaborated against fn's argument type (an all-None column is typable)
     bad = []
     for (name, ok, out), ch in zip(ctx.coq_eval_many(files), chunks):
         ctx.obligations += 1
